@@ -687,9 +687,9 @@ type pick struct {
 
 type result struct {
 	advIDs   []int
-	local    string // T<code>: what LocalAddr() returns after the call (T- : no session value)
-	remoteCh string // "" or what RemoteAddr() returns when it is not the address the session was created with
-	callerCh string // "" or how the caller's own JID values (the arguments of NewSession) were changed
+	local    string   // T<code>: what LocalAddr() returns after the call (T- : no session value)
+	remoteCh string   // "" or what RemoteAddr() returns when it is not the address the session was created with
+	callerCh string   // "" or how the caller's own JID values (the arguments of NewSession) were changed
 	adv      string   // A<ids>: what Session.Feature reports as advertised after the call
 	hello    string   // N<name> when a ClientHello left during NewSession, else ""
 	clearEv  []string // what the client wrote in clear text, classified
